@@ -41,19 +41,40 @@ type Program struct {
 	GOARCH   string
 
 	// lazily built
-	callers map[*ssa.Function][]ssa.CallInstruction
-	descMemo map[descKey]string
-	descBusy map[descKey]bool
+	callers     map[*ssa.Function][]ssa.CallInstruction
+	descMemo    map[descKey]string
+	descBusy    map[descKey]bool
 	fieldStores map[fieldKey][]ssa.Value
-	fileOf   map[*token.File]*ast.File
-	fg        map[*ssa.Function]*funcGuards
-	entryMemo map[*ssa.Function][]Lit
-	entryBusy map[*ssa.Function]bool
-	boolSums  map[*ssa.Function]*boolSum
-	ov        map[ssa.Value]string
-	ovMemo    map[descKey]string
-	helperBusy map[*ssa.Function]bool
-	boolSumsK  map[boolSumKey]*boolSum
+	fileOf      map[*token.File]*ast.File
+	fg          map[*ssa.Function]*funcGuards
+	entryMemo   map[*ssa.Function][]Lit
+	entryBusy   map[*ssa.Function]bool
+	boolSums    map[*ssa.Function]*boolSum
+	ov          map[ssa.Value]string
+	ovMemo      map[descKey]string
+	helperBusy  map[*ssa.Function]bool
+	boolSumsK   map[boolSumKey]*boolSum
+	pin         map[*ssa.Function]ssa.CallInstruction
+}
+
+// Pinned runs f with fn considered to be called from call only (one calling context of a shared helper).
+// Everything memoised that depends on callers is recomputed inside and restored afterwards.
+func (P *Program) Pinned(fn *ssa.Function, call ssa.CallInstruction, f func()) {
+	if call == nil {
+		f()
+		return
+	}
+	sDesc, sFg, sEntry, sBool, sBoolK, sPin := P.descMemo, P.fg, P.entryMemo, P.boolSums, P.boolSumsK, P.pin
+	P.descMemo, P.fg, P.entryMemo, P.boolSums, P.boolSumsK = nil, nil, nil, nil, nil
+	P.pin = map[*ssa.Function]ssa.CallInstruction{}
+	for k, v := range sPin {
+		P.pin[k] = v
+	}
+	P.pin[fn] = call
+	defer func() {
+		P.descMemo, P.fg, P.entryMemo, P.boolSums, P.boolSumsK, P.pin = sDesc, sFg, sEntry, sBool, sBoolK, sPin
+	}()
+	f()
 }
 
 type boolSumKey struct {
@@ -311,6 +332,9 @@ func (P *Program) Callers(fn *ssa.Function) []ssa.CallInstruction {
 				}
 			})
 		}
+	}
+	if call, ok := P.pin[fn]; ok {
+		return []ssa.CallInstruction{call}
 	}
 	return P.callers[fn]
 }
